@@ -95,6 +95,12 @@ def enumerate_cases(tier):
         if case.get("family") == "holder-waiter-passer-by" or (case["mode"] == "enum" and case.get("max_preempt", 1) == 1
                                                                  and case["start_name"] == "bound,docs"):
             yield dict(case, family="owned", src="C12")
+    # (5) the mode that was asked for is the mode the store runs in - or the open fails: a store opened with the variable set
+    # while the multiprocessing primitives cannot be created (descriptor table / semaphore space exhausted) must not come
+    # back silently in threading mode, where forked workers do not exclude one another
+    for what in ("Manager", "Lock", "Condition"):
+        for err in ("EMFILE", "ENOSPC", "ImportError"):
+            yield dict(BASE, family="init-under-exhaustion", what=what, err=err)
     # (3) parked holder across real processes
     points = (0, 2, 5, 9, 14, 20) if tier == "quick" else tuple(range(0, 40))
     for name in PARK_PAIRS:
@@ -490,9 +496,46 @@ def run_case(case, ctx):
         ctx.violation("multiprocessing-mode-not-honoured", f"[{case.get('family')}] {e}", {"family": case.get("family"), "failure": "mode"})
 
 
+def _init_exhaustion_case(case, ctx):
+    import errno
+    import multiprocessing
+    from .. import sched
+    sched.install_dispatch()
+    sched.set_mode("real")
+    common.cold_module()
+    root = os.path.join(ctx.scratch("c16init"), "store")
+    real = getattr(multiprocessing, case["what"])
+
+    def failing(*a, **k):
+        if case["err"] == "ImportError":
+            raise ImportError("This platform lacks a functioning sem_open implementation [injected]")
+        code = getattr(errno, case["err"])
+        raise OSError(code, os.strerror(code) + " [injected]")
+    old_env = os.environ.get("USE_MULTIPROCESSING")
+    os.environ["USE_MULTIPROCESSING"] = "True"
+    setattr(multiprocessing, case["what"], failing)
+    try:
+        out = call(common.hs().FileHashStore, common.Cfg("SHA-256", 2, 2).props(root))
+    finally:
+        setattr(multiprocessing, case["what"], real)
+        if old_env is None:
+            os.environ.pop("USE_MULTIPROCESSING", None)
+        else:
+            os.environ["USE_MULTIPROCESSING"] = old_env
+        sched.set_mode("shim")
+    if is_ok(out) and not bool(getattr(out[1], "use_multiprocessing", True)):
+        ctx.violation("mode-not-selected", f"USE_MULTIPROCESSING=True was set before the store was initialised and multiprocessing."
+                      f"{case['what']}() failed with {case['err']}: the constructor returned a store that runs in THREADING mode "
+                      f"(workers forked from this process would not exclude one another) instead of failing", {"family": "init"})
+    ctx.classify("init-under-exhaustion:" + ("refused" if not is_ok(out) else "opened"))
+    ctx.nontrivial(["init-under-exhaustion", case["what"], case["err"], "ok" if is_ok(out) else out[1]])
+
+
 def _run_case(case, ctx):
     fsi.install()
     fam = case["family"]
+    if fam == "init-under-exhaustion":
+        return _init_exhaustion_case(case, ctx)
     if fam == "diff":
         return _diff_case(case, ctx)
     if fam == "owned":
